@@ -28,7 +28,7 @@ def byte_account_rule(run):
     engines.r2_writer_table(run, Q + '::m_queue_size', {Q + '::queue': 'constructor', ip.norm: 'enqueue', ns.norm: 'dequeue'}, required=[ip.norm, ns.norm])
     enq = [c for op, c in q.container_calls(ip, 'm_queue', {'push_back'})]
     adds = [a for a in q.field_accesses(ip, {Q + '::m_queue_size'}) if a.kind == 'compound']
-    ok = len(enq) == 1 and len(adds) == 1 and adds[0].method == '+=' and ip.cfg.node_block(enq[0]) == ip.cfg.node_block(adds[0].site)
+    ok = len(enq) == 1 and len(adds) == 1 and adds[0].method == '+=' and q.paired(ip, enq[0], adds[0].site)
     m = q.linform(ip, adds[0].site['rhs'], sub_ip) if adds else None
     run.check(ok and m == MEASURE, 'R9', 'enqueue', ip.norm, ip.loc(),
               'the enqueue and the += of m_queue_size are not one unconditional pair with measure payload+overhead (found %s in block %s vs enqueue block %s): the account drifts for packets that take the other path'
@@ -36,7 +36,7 @@ def byte_account_rule(run):
               'emplace_back and += (payload+overhead) in the same block')
     deq = [c for op, c in q.container_calls(ns, 'm_queue', {'pop_front'})]
     subs = [a for a in q.field_accesses(ns, {Q + '::m_queue_size'}) if a.kind == 'compound']
-    ok = len(deq) == 1 and len(subs) == 1 and subs[0].method == '-=' and ns.cfg.node_block(deq[0]) == ns.cfg.node_block(subs[0].site)
+    ok = len(deq) == 1 and len(subs) == 1 and subs[0].method == '-=' and q.paired(ns, deq[0], subs[0].site)
     m2 = q.linform(ns, subs[0].site['rhs'], sub_ns) if subs else None
     run.check(ok and m2 == MEASURE, 'R9', 'dequeue', ns.norm, ns.loc(), 'the dequeue and the -= of m_queue_size are not one unconditional pair with measure payload+overhead', 'erase and -= (payload+overhead) in the same block')
     # the measured element is the one moved: p is the front packet
